@@ -151,7 +151,9 @@ func (g *c16Gen) step(q string, t int) (string, int) {
 		case c16Nested:
 			return q + " | Length", -1
 		case c16Date:
-			switch g.r.Intn(3) {
+			switch g.r.Intn(4) {
+			case 3: // a struct FIELD mapped over a list ([]gedcom.Date)
+				return q + " | " + g.r.Pick([]string{".StartDate", ".EndDate"}) + " | " + g.r.Pick([]string{".Year", ".Day", ".Month", ".Constraint"}), c16Num
 			case 0:
 				return q + " | .Years", c16Num
 			case 1:
@@ -1146,6 +1148,51 @@ func init() {
 				sb.WriteString("]")
 				addLaw(c16Law{"apiref", ".Individuals | {e: .AllEvents | Only(.Tag | .Tag = \"BIRT\") | Length}",
 					strings.ReplaceAll(sb.String(), "[ ]", "[  ]") + c16sep + "Only(…) over .AllEvents differs from counting through the Go API", d})
+				// struct FIELDS applied to a list map over its elements like methods do: []gedcom.Date
+				// (.Year / .Day / .Month / .Constraint) and []gedcom.Age (.IsKnown / .IsEstimate /
+				// .Constraint), expected values through the Go API
+				{
+					ints := func(f func(*gedcom.IndividualNode) string) string {
+						var b strings.Builder
+						b.WriteString("[ ")
+						for _, ind := range doc.Individuals() {
+							b.WriteString(f(ind) + " ")
+						}
+						b.WriteString("]")
+						return strings.ReplaceAll(b.String(), "[ ]", "[  ]")
+					}
+					what := "a field accessor applied to a list does not map over its elements in order"
+					for _, end := range []string{"StartDate", "EndDate"} {
+						get := func(ind *gedcom.IndividualNode) gedcom.Date {
+							b, _ := ind.Birth()
+							if end == "StartDate" {
+								return b.StartDate()
+							}
+							return b.EndDate()
+						}
+						addLaw(c16Law{"apiref", ".Individuals | .Birth | ." + end + " | .Year", ints(func(i *gedcom.IndividualNode) string { return "i" + strconv.Itoa(get(i).Year) }) + c16sep + what, d})
+						addLaw(c16Law{"apiref", ".Individuals | .Birth | ." + end + " | .Day", ints(func(i *gedcom.IndividualNode) string { return "i" + strconv.Itoa(get(i).Day) }) + c16sep + what, d})
+						addLaw(c16Law{"apiref", ".Individuals | .Birth | ." + end + " | .Month", ints(func(i *gedcom.IndividualNode) string { return "i" + strconv.Itoa(int(get(i).Month)) }) + c16sep + what, d})
+						addLaw(c16Law{"apiref", ".Individuals | .Death | ." + end + " | .Constraint | Length", "i" + strconv.Itoa(len(doc.Individuals())) + c16sep + what, d})
+						addLaw(c16Law{"apiref", ".Individuals | First(2) | .Birth | ." + end + " | .Year | Length", "i" + strconv.Itoa(func() int {
+							if n := len(doc.Individuals()); n < 2 {
+								return n
+							}
+							return 2
+						}()) + c16sep + what, d})
+					}
+					bools := func(f func(gedcom.Age) bool) string {
+						return ints(func(i *gedcom.IndividualNode) string {
+							a, _ := i.Age()
+							if f(a) {
+								return "t"
+							}
+							return "f"
+						})
+					}
+					addLaw(c16Law{"apiref", ".Individuals | .Age | .IsKnown", bools(func(a gedcom.Age) bool { return a.IsKnown }) + c16sep + what, d})
+					addLaw(c16Law{"apiref", ".Individuals | .Age | .IsEstimate", bools(func(a gedcom.Age) bool { return a.IsEstimate }) + c16sep + what, d})
+				}
 				// operands whose Go type is a named integer with a String() method (time.Month,
 				// DateConstraint, AgeConstraint, time.Duration): the rule compares their %v TEXT
 				// ("January", "Abt.", "0s"), numerically only if that text parses as a number — against
